@@ -270,4 +270,31 @@ def _check_unmapped(run: Run, mod: Module, fn: FuncInfo, gst: ast.If) -> None:
                          witness="from district42 import schema as s")
 
 
-MUTANTS = True
+
+
+M = "d42/migration/migrate_v1_to_v2.py"
+MUTANTS = [
+    {"name": "a mapping target misspelt", "rule": "TARGETS-RESOLVE",
+     "edits": [(M, '"Substitutor": ("d42.substitution", "Substitutor")', '"Substitutor": ("d42.substitution", "Substitutr")')]},
+    {"name": "a mapping target module misspelt", "rule": "TARGETS-RESOLVE",
+     "edits": [(M, '("d42.substitution.errors", "SubstitutionError")', '("d42.substitution.error", "SubstitutionError")')]},
+    {"name": "an entry renames without alias", "rule": "NAME-PRESERVING",
+     "edits": [(M, '"substitute": ("d42", "substitute")', '"substitute": ("d42", "validate")')]},
+    {"name": "relative imports rewritten", "rule": "SCOPE-ABSOLUTE",
+     "edits": [(M, "            if node.level > 0:\n                continue  # Skip relative imports like 'from .module import ...'\n", "")]},
+    {"name": "unmapped names dropped", "rule": "UNMAPPED-KEPT",
+     "edits": [(M, "                    unmapped_names.append(import_name)", "                    pass")]},
+    {"name": "nested imports rewritten too", "rule": "SCOPE-TOPLEVEL",
+     "edits": [(M, "    for node in tree.body:", "    for node in ast.walk(tree):")]},
+    {"name": "asname dropped for mapped names", "rule": "ALIAS-KEPT",
+     "edits": [(M, '                    import_name = f"{new_name} as {asname}" if asname else new_name', '                    import_name = new_name')]},
+    {"name": "whole-line splice (F13 reverted)", "rule": "SPAN",
+     "edits": [(M, "        prefix = lines[start_line].encode()[:col].decode()\n        suffix = lines[end_line].encode()[end_col:].decode()\n        if prefix.strip() or suffix.strip():", "        prefix = suffix = ''\n        if prefix.strip() or suffix.strip():"),
+               (M, "node.col_offset, node.end_col_offset,", "0, 0,")]},
+    {"name": "unmapped names re-emitted from the NEW module", "rule": "UNMAPPED-KEPT",
+     "edits": [(M, "                replacement_lines.append(f'from {module} import {names_str}\\n')", "                replacement_lines.append(f'from {new_module} import {names_str}\\n')")]},
+    {"name": "neutral: relative guard written as != 0", "expect": "SILENT",
+     "edits": [(M, "            if node.level > 0:", "            if node.level != 0:")]},
+    {"name": "neutral: loop variable renamed", "expect": "SILENT",
+     "edits": [(M, "            for alias in node.names:\n                name = alias.name\n                asname = alias.asname", "            for item in node.names:\n                name = item.name\n                asname = item.asname")]},
+]
